@@ -13,6 +13,7 @@ import OpenHTF.Driver.C10
 import OpenHTF.Driver.C17
 import OpenHTF.Driver.C15
 import OpenHTF.Driver.C18
+import OpenHTF.Driver.C12
 open OpenHTF.Driver
 
 def stripNl (s : String) : String :=
@@ -35,6 +36,7 @@ def dispatch (line : String) : String :=
   | "C17" :: ts => C17.handle ts
   | "C15" :: ts => C15.handle ts
   | "C18" :: ts => C18.handle ts
+  | "C12" :: ts => C12.handle ts
   | "C03" :: ts => C02.handleC03 ts
   | _ => reply false false "unknown-property"
 
